@@ -4,7 +4,9 @@ package main
 
 import (
 	"fmt"
+	"regexp"
 	"sort"
+	"strconv"
 	"strings"
 	"time"
 
@@ -203,9 +205,18 @@ func c01Run(r *runCtx, id string, f []string) {
 	if err != nil {
 		r.obs(id, "rejected")
 		fmt.Fprintf(r.w, "%s MOBS rejected\n", id)
+		r.stat("programs_rejected_by_compiler")
+		// programs the parser and the type checker let through and the code generator then refuses
+		// ("Internal compiler error"): counted by kind in the evidence.  Not reported as violations
+		// of "every well-typed program is accepted": what reaches this point in the corpora is
+		// arithmetic other than + on strings, int() of a float (docs/Language.md allows a compile
+		// error there), ~ used as a truth value, a counter assigned a string, a metric whose type
+		// nothing determines - programs the language reference does not call well typed
+		if _, cerr := checkedAST(src); cerr == nil {
+			r.stat("rejected_by_codegen_only:" + codegenRejectKind(err.Error()))
+		}
 		r.ok(id)
 		r.trivial(id)
-		r.stat("programs_rejected_by_compiler")
 		return
 	}
 	r.stat("programs_accepted")
@@ -396,4 +407,44 @@ func init() {
 		run:    c01Run,
 		finish: func(r *runCtx) { props["C04"].finish(r) },
 	}
+}
+
+var (
+	reConvert  = regexp.MustCompile(`can't convert "?([A-Za-z]+)"? to "?([A-Za-z]+)"?`)
+	reNoOpcode = regexp.MustCompile(`no opcode for type ([A-Za-z]+) in op (\d+)`)
+)
+
+// codegenRejectKind names the reason the code generator gives, without positions and node dumps.
+func codegenRejectKind(msg string) string {
+	switch {
+	case reConvert.MatchString(msg):
+		m := reConvert.FindStringSubmatch(msg)
+		return "convert-" + m[1] + "-to-" + m[2]
+	case reNoOpcode.MatchString(msg):
+		m := reNoOpcode.FindStringSubmatch(msg)
+		op := m[2]
+		if n, err := strconv.Atoi(m[2]); err == nil {
+			op = parser.Kind(n).String()
+		}
+		return "no-opcode-" + m[1] + "-" + op
+	case strings.Contains(msg, "Can't initialize to zero"):
+		return "zero-initialise"
+	case strings.Contains(msg, "invalid type for get"):
+		return "get-of-untyped-metric"
+	case strings.Contains(msg, "at least two boundaries"):
+		return "histogram-boundaries"
+	case strings.Contains(msg, "invalid type for add-assignment"):
+		return "add-assign-type"
+	case strings.Contains(msg, "unexpected rhs expression for match"):
+		return "match-rhs"
+	case strings.Contains(msg, "too many arguments to builtin"):
+		return "conversion-arity"
+	case strings.Contains(msg, "buckets boundaries must be sorted"):
+		return "histogram-boundaries-unsorted"
+	}
+	w := strings.Fields(strings.TrimPrefix(firstLine(msg[strings.Index(msg, ": ")+2:]), "Internal compiler error, aborting compilation: "))
+	if len(w) > 4 {
+		w = w[:4]
+	}
+	return regexp.MustCompile(`[^A-Za-z0-9_-]`).ReplaceAllString(strings.Join(w, "-"), "")
 }
